@@ -23,7 +23,9 @@ CONSTANTS MinCols, MaxCols,
           MaxLife,     \* Flush / EvictAll / Restart steps per scenario
           EmitOn
 
-VARIABLES life, hist
+VARIABLES life,      \* lifecycle steps so far, in order
+          lastmut,   \* the last Put / UpdateAll attempted (<<>> before the first)
+          hist
 
 In32 == {"min32", "m1", "0", "1", "max32"}
 IV(c) == [t |-> "i", cls |-> c, w |-> IF c \in In32 THEN 32 ELSE 64, len |-> 0]
@@ -73,10 +75,10 @@ RawOK(s, r) == /\ Cardinality(FillCols(r)) <= 1
 
 Schemas == UNION {[1..n -> Types] : n \in MinCols..MaxCols}
 
-mcVars == <<schema, abs, mem, disk, warm, dirty, gen, nmut, ret, life, hist>>
+mcVars == <<schema, abs, mem, disk, warm, dirty, gen, nmut, ret, life, lastmut, hist>>
 
 MCInit == /\ \E s \in Schemas : VSInit(s)
-          /\ life = <<>> /\ hist = <<>>
+          /\ life = <<>> /\ lastmut = <<>> /\ hist = <<>>
 
 Strip(v) == [t |-> v.t, cls |-> v.cls, len |-> v.len]
 
@@ -84,7 +86,8 @@ DoPut == \E raw \in Prod(schema, Len(schema), {}) :
            /\ RawOK(schema, raw)
            /\ LET row == Resolved(schema, raw) IN
               /\ Put(row)
-              /\ hist' = Append(hist, [a |-> "put", k |-> nmut', row |-> [i \in 1..Len(row) |-> Strip(row[i])], ok |-> ret'.ok])
+              /\ lastmut' = <<[a |-> "put", k |-> nmut', row |-> [i \in 1..Len(row) |-> Strip(row[i])], ok |-> ret'.ok]>>
+              /\ hist' = Append(hist, lastmut'[1])
 
 \* SET list: some columns keep their value; a fill string is sized against the first row
 DoUpd == /\ WithUpd
@@ -98,10 +101,11 @@ DoUpd == /\ WithUpd
                  /\ LET res == Resolved(schema, first)
                         set == [i \in cols |-> res[i]]
                     IN /\ UpdateAll(set)
-                       /\ hist' = Append(hist, [a |-> "upd", k |-> nmut',
-                                                set |-> SelectSeq([i \in 1..Len(schema) |-> [c |-> i, v |-> Strip(res[i]), on |-> i \in cols]],
-                                                                  LAMBDA x : x.on),
-                                                ok |-> ret'.ok])
+                       /\ lastmut' = <<[a |-> "upd", k |-> nmut',
+                                         set |-> SelectSeq([i \in 1..Len(schema) |-> [c |-> i, v |-> Strip(res[i]), on |-> i \in cols]],
+                                                           LAMBDA x : x.on),
+                                         ok |-> ret'.ok]>>
+                       /\ hist' = Append(hist, lastmut'[1])
 
 MCNext ==
   /\ ret.op # "get"            \* a Get ends the scenario
@@ -112,14 +116,18 @@ MCNext ==
         /\ \/ Flush /\ life' = Append(life, "F") /\ hist' = Append(hist, [a |-> "flush"])
            \/ EvictAll /\ life' = Append(life, "E") /\ hist' = Append(hist, [a |-> "evict"])
            \/ Restart /\ life' = Append(life, "R") /\ hist' = Append(hist, [a |-> "restart"])
+        /\ UNCHANGED lastmut
      \/ /\ Get
         /\ hist' = Append(hist, [a |-> "get", rows |-> [r \in 1..Len(ret'.rows) |->
                                     [i \in 1..Len(schema) |-> [t |-> ret'.rows[r][i].t, cls |-> ret'.rows[r][i].cls,
                                                                len |-> ret'.rows[r][i].len, by |-> ret'.rows[r][i].by]]]])
-        /\ UNCHANGED life
+        /\ UNCHANGED <<life, lastmut>>
 
-\* the order of lifecycle steps is part of the state (all orders are to be explored); the history is not
-View == <<schema, abs, mem, disk, warm, dirty, gen, nmut, ret, life>>
+\* The order of lifecycle steps is part of the state (all orders are to be
+\* explored) and so is the last statement attempted: refused statements leave
+\* the table as it was, and each of them must still get its own scenarios
+\* ("... ; refused statement ; lifecycle steps ; Get").  The history is not.
+View == <<schema, abs, mem, disk, warm, dirty, gen, nmut, ret, life, lastmut>>
 
 Emit == (EmitOn /\ ret'.op = "get") => PrintT(<<"SCN", ToJson([schema |-> schema, steps |-> hist'])>>)
 =============================================================================
